@@ -403,17 +403,19 @@ func (e *Encoder) Encode(d interface{}) error {
 			"NewEncoder. Try EncodeFields instead.")
 	}
 	v := reflect.Indirect(reflect.ValueOf(d))
-	for i, j := range e.fieldIndices {
-		if err := e.Writer.WriteAttribute(e.row, i, v.Field(j).Interface()); err != nil {
-			return fmt.Errorf("shp: %v", err)
-		}
-	}
 
 	shape, err := geom2Shp(v.Field(e.geomIndex).Interface().(geom.Geom))
 	if err != nil {
 		return err
 	}
+	// The shape is written first: writing it also writes a blank attribute
+	// record, which must not come after the attribute values.
 	e.Writer.Write(shape)
+	for i, j := range e.fieldIndices {
+		if err := e.Writer.WriteAttribute(e.row, i, v.Field(j).Interface()); err != nil {
+			return fmt.Errorf("shp: %v", err)
+		}
+	}
 	e.row++
 	return nil
 }
